@@ -14,26 +14,25 @@ PENDING = "builtin_glue_pending"
 MODULE_ATTR = "_stackscope_install_glue_"
 
 
-def _glue_sources(fn: ast.AST) -> Dict[str, Tuple[str, ast.AST, bool]]:
-    """local name -> (kind 'builtin'|'module', assignment, removing?) for values taken from the two registries"""
-    out: Dict[str, Tuple[str, ast.AST, bool]] = {}
+def _glue_sources(fn: ast.AST) -> List[Tuple[str, str, ast.AST, bool]]:
+    """(local name, kind 'builtin'|'module', assignment, removing?) for every value taken from the two registries"""
+    out: List[Tuple[str, str, ast.AST, bool]] = []
     for st in walk_scope(fn):
         if isinstance(st, ast.Assign) and len(st.targets) == 1 and isinstance(st.targets[0], ast.Name):
             v = st.value
             name = st.targets[0].id
-            txt = norm(v)
             if isinstance(v, ast.Call) and isinstance(v.func, ast.Attribute):
                 recv = norm(v.func.value)
                 if recv == PENDING and v.func.attr in ("pop", "get", "setdefault"):
-                    out[name] = ("builtin", st, v.func.attr == "pop")
+                    out.append((name, "builtin", st, v.func.attr == "pop"))
                 elif v.args and isinstance(v.args[0], ast.Constant) and v.args[0].value == MODULE_ATTR and v.func.attr in ("pop", "get"):
-                    out[name] = ("module", st, v.func.attr == "pop")
+                    out.append((name, "module", st, v.func.attr == "pop"))
             if isinstance(v, ast.Call) and norm(v.func) == "getattr" and len(v.args) >= 2 and isinstance(v.args[1], ast.Constant) and v.args[1].value == MODULE_ATTR:
-                out[name] = ("module", st, False)
+                out.append((name, "module", st, False))
             if isinstance(v, ast.Subscript) and norm(v.value) == PENDING:
-                out[name] = ("builtin", st, False)
+                out.append((name, "builtin", st, False))
             if isinstance(v, ast.Attribute) and v.attr == MODULE_ATTR:
-                out[name] = ("module", st, False)
+                out.append((name, "module", st, False))
     return out
 
 
@@ -67,7 +66,7 @@ def glue_rules(ctx: Ctx) -> None:
         for q, fn in m.defs.items():
             if not isinstance(fn, (ast.FunctionDef, ast.AsyncFunctionDef)):
                 continue
-            srcs = _glue_sources(fn)
+            srcs = {x[0] for x in _glue_sources(fn)}
             for c in calls_in(fn, scope_only=True):
                 if isinstance(c.func, ast.Name) and c.func.id in srcs:
                     if m is mod and fn not in installers:
@@ -91,48 +90,66 @@ def glue_rules(ctx: Ctx) -> None:
     ctx.R.saw(mod, iq)
     ctx.R.ok("GLUE-8", f"single installer: _glue.{iq}")
     srcs = _glue_sources(inst)
-    bnames = [n for n, (k, _, _) in srcs.items() if k == "builtin"]
-    mnames = [n for n, (k, _, _) in srcs.items() if k == "module"]
-    if len(bnames) != 1 or len(mnames) != 1:
-        raise AnalysisError(f"GLUE: installer takes {len(bnames)} built-in and {len(mnames)} module-provided references (1 each confirmed)")
-    bn, mn = bnames[0], mnames[0]
+    names = {x[0] for x in srcs}
+    bsrc = [x for x in srcs if x[1] == "builtin"]
+    msrc = [x for x in srcs if x[1] == "module"]
+    if not bsrc or not msrc:
+        raise AnalysisError(f"GLUE: installer takes {len(bsrc)} built-in and {len(msrc)} module-provided references (>= 1 each expected)")
     g = ctx.cfg(inst)
-    gcalls = [c for c in calls_in(inst, True) if isinstance(c.func, ast.Name) and c.func.id in (bn, mn)]
-    # ---- GLUE-1 pop-before-call
-    for n in (bn, mn):
-        kind, st, removing = srcs[n]
+    gcalls = [c for c in calls_in(inst, True) if isinstance(c.func, ast.Name) and c.func.id in names]
+    if not gcalls:
+        raise AnalysisError("GLUE: installer does not call any glue reference")
+
+    def src_node(st: ast.AST):
+        # a read inside `try: x = ...pop() except: x = None` is represented by the try statement (its
+        # handler rebinds the name, so the assignment itself does not dominate what follows)
+        tr = [a for a in mod.ancestors(st) if isinstance(a, ast.Try)]
+        return g.node_of(tr[0]) if tr and in_body(tr[0].body, st, mod) else g.node_of(st)
+
+    # ---- GLUE-1 pop-before-call: for each registry, a *removing* read dominates every glue call
+    for name, kind, st, removing in srcs:
         if not removing:
             ctx.R.fail("GLUE-1", mod, st, f"the {kind} glue reference is read without being removed from its registry: the same glue runs again at the next scan (never twice is violated)",
-                       construct=f"{n} = {norm(st.value)[:80]}")
+                       construct=f"{name} = {norm(st.value)[:80]}")
         else:
-            ctx.R.ok("GLUE-1", f"{n} = {norm(st.value)[:70]}", "removing read")
+            ctx.R.ok("GLUE-1", f"{name} = {norm(st.value)[:70]}", "removing read")
     for c in gcalls:
         cn = g.node_of(_stmt(mod, c))
-        for n in (bn, mn):
-            sn = g.node_of(srcs[n][1])
-            # module_fn may also be bound in the handler of its own try: accept dominance by the try statement
-            stt = srcs[n][1]
-            tr = [a for a in mod.ancestors(stt) if isinstance(a, ast.Try)]
-            dom_node = g.node_of(tr[0]) if tr and in_body(tr[0].body, stt, mod) else sn
-            if g.dominates(dom_node, cn):
-                ctx.R.ok("GLUE-1", f"both references are taken before `{norm(c)}`" if n == mn else f"`{norm(c)}` after {n} was popped")
+        for kind, lst in (("built-in", bsrc), ("module-provided", msrc)):
+            if any(removing and g.dominates(src_node(st), cn) for _, _, st, removing in lst):
+                ctx.R.ok("GLUE-1", f"`{norm(c)}`: the {kind} reference was already removed from its registry")
             else:
-                ctx.R.fail("GLUE-1", mod, c, f"`{norm(c)}` can run before `{n}` was removed from its registry: a re-entrant or concurrent scan would run the same glue again")
-    # ---- GLUE-2 exclusive arms, module-provided first
-    ifs = [s for s in ast.walk(inst) if isinstance(s, ast.If) and any(isinstance(c, ast.Call) and isinstance(c.func, ast.Name) and c.func.id in (bn, mn) for b in s.body for c in ast.walk(b))]
-    top = [s for s in ifs if not any(s in ast.walk(o) and s is not o for o in ifs)]
+                ctx.R.fail("GLUE-1", mod, c, f"`{norm(c)}` can run while the {kind} glue reference of the same module is still registered: it is left behind and runs at a later scan "
+                           "(both kinds for one module / the same glue twice)", construct=f"{norm(c)} not dominated by the {kind} pop")
+    # ---- GLUE-2 exclusive, module-provided first
+    bn = bsrc[0][0]
+    mn = msrc[0][0]
     ok2 = False
-    if len(top) == 1:
-        s = top[0]
-        first_calls = [c.func.id for b in s.body for c in ast.walk(b) if isinstance(c, ast.Call) and isinstance(c.func, ast.Name) and c.func.id in (bn, mn)]
-        else_calls = [c.func.id for b in s.orelse for c in ast.walk(b) if isinstance(c, ast.Call) and isinstance(c.func, ast.Name) and c.func.id in (bn, mn)]
-        if first_calls == [mn] and else_calls == [bn] and norm(s.test) == f"{mn} is not None" and len(s.orelse) == 1 and isinstance(s.orelse[0], ast.If) \
-                and norm(s.orelse[0].test) == f"{bn} is not None":
-            ok2 = True
-    if ok2 and len(gcalls) == 2:
-        ctx.R.ok("GLUE-2", f"if {mn} is not None: {mn}() elif {bn} is not None: {bn}()", "exclusive arms, module-provided first")
+    detail = ""
+    if bn != mn:
+        ifs = [s for s in ast.walk(inst) if isinstance(s, ast.If) and any(isinstance(c, ast.Call) and isinstance(c.func, ast.Name) and c.func.id in names for b in s.body for c in ast.walk(b))]
+        top = [s for s in ifs if not any(s in ast.walk(o) and s is not o for o in ifs)]
+        if len(top) == 1:
+            s_ = top[0]
+            first_calls = [c.func.id for b in s_.body for c in ast.walk(b) if isinstance(c, ast.Call) and isinstance(c.func, ast.Name) and c.func.id in names]
+            else_calls = [c.func.id for b in s_.orelse for c in ast.walk(b) if isinstance(c, ast.Call) and isinstance(c.func, ast.Name) and c.func.id in names]
+            if first_calls == [mn] and else_calls == [bn] and norm(s_.test) == f"{mn} is not None" and len(s_.orelse) == 1 and isinstance(s_.orelse[0], ast.If) \
+                    and norm(s_.orelse[0].test) == f"{bn} is not None" and len(gcalls) == 2:
+                ok2 = True
+                detail = f"if {mn} is not None: {mn}() elif {bn} is not None: {bn}()"
+        anchor = top[0] if top else inst
     else:
-        ctx.R.fail("GLUE-2", mod, top[0] if top else inst, "the module-provided and the built-in glue must be the exclusive arms of one if/elif with the module-provided one first "
+        # one variable: bound from the module first, from the built-in registry only while still None
+        anchor = inst
+        mst, bst = msrc[0][2], bsrc[0][2]
+        gsb = [(norm(gx), pol) for gx, pol in guards_of(mod, bst, inst)]
+        if len(gcalls) == 1 and g.dominates(src_node(mst), g.node_of(bst)) and ((f"{bn} is None", True) in gsb or (f"{bn} is not None", False) in gsb or (f"not {bn}", True) in gsb):
+            ok2 = True
+            detail = f"{bn} = <module glue>; if {bn} is None: {bn} = <built-in glue>; one call"
+    if ok2:
+        ctx.R.ok("GLUE-2", detail, "exclusive, module-provided first")
+    else:
+        ctx.R.fail("GLUE-2", mod, anchor, "the module-provided and the built-in glue must be mutually exclusive with the module-provided one preferred "
                    "(never both kinds for one module; module-provided beats built-in)", construct="if module_fn / elif builtin_fn")
     # ---- GLUE-3 lock coverage
     lock_ok = True
@@ -156,10 +173,10 @@ def glue_rules(ctx: Ctx) -> None:
             if not _under_lock(mod, c):
                 lock_ok = False
                 ctx.R.fail("GLUE-3", mod, c, "a glue function is called outside `with glue_lock`")
-        for n in (bn, mn):
-            if not _under_lock(mod, srcs[n][1]):
+        for _n, _k, _st, _r in srcs:
+            if not _under_lock(mod, _st):
                 lock_ok = False
-                ctx.R.fail("GLUE-3", mod, srcs[n][1], "a glue reference is taken outside `with glue_lock`")
+                ctx.R.fail("GLUE-3", mod, _st, "a glue reference is taken outside `with glue_lock`")
     # the scan loop itself is under the lock
     loops = [s for s in ast.walk(add) if isinstance(s, ast.For)]
     if len(loops) != 1:
